@@ -28,20 +28,21 @@ VARIABLES l,        \* next line
           pdiv, psteps,  \* progress counters the trace implies (post-warm-up divergences, steps)
           emptySeen,     \* per chain: its mailbox held no confirmed message at some instant since the
                          \* chain's previous event (a poll is logged after it happened)
+          lastcb,        \* per chain: finished draws reported by the last progress callback
           snap           \* per chain: rec[i] if the chain was quiescent when the controller took the
                          \* current command, else -1
 
-tvars == <<vars, l, unconf, fullpos, pdiv, psteps, emptySeen, snap>>
+tvars == <<vars, l, unconf, fullpos, pdiv, psteps, emptySeen, snap, lastcb>>
 R == Rec[l]
 IsEvent(e) == l <= Len(Rec) /\ Rec[l].ev = e /\ l' = l + 1
-Silent == UNCHANGED <<l, unconf, fullpos, pdiv, psteps, emptySeen, snap>>
-Keep == UNCHANGED <<unconf, fullpos, pdiv, psteps, emptySeen, snap>>
-KeepBut(i) == /\ UNCHANGED <<unconf, fullpos, pdiv, psteps, snap>>
+Silent == UNCHANGED <<l, unconf, fullpos, pdiv, psteps, emptySeen, snap, lastcb>>
+Keep == UNCHANGED <<unconf, fullpos, pdiv, psteps, emptySeen, snap, lastcb>>
+KeepBut(i) == /\ UNCHANGED <<unconf, fullpos, pdiv, psteps, snap, lastcb>>
               /\ emptySeen' = [emptySeen EXCEPT ![i] = (Len(mailbox'[i]) <= unconf[i])]
 
 Zero == [i \in Chains |-> 0]
 TInit == TLCSet(2, 0) /\ Init /\ l = 1 /\ unconf = Zero /\ fullpos = <<>> /\ pdiv = Zero /\ psteps = Zero
-         /\ emptySeen = [i \in Chains |-> TRUE] /\ snap = [i \in Chains |-> -1]
+         /\ emptySeen = [i \in Chains |-> TRUE] /\ snap = [i \in Chains |-> -1] /\ lastcb = [i \in Chains |-> 0]
 
 \* ---- run boundaries -----------------------------------------------------
 TrReset ==
@@ -64,7 +65,7 @@ TrReset ==
     /\ results' = <<>> /\ senders' = NChains /\ cdone' = "no" /\ failed' = {}
     /\ win' = FALSE /\ quota' = Zero /\ since' = Zero
     /\ unconf' = Zero /\ fullpos' = R.fullpos /\ pdiv' = Zero /\ psteps' = Zero
-    /\ emptySeen' = [i \in Chains |-> TRUE] /\ snap' = [i \in Chains |-> -1]
+    /\ emptySeen' = [i \in Chains |-> TRUE] /\ snap' = [i \in Chains |-> -1] /\ lastcb' = [i \in Chains |-> 0]
 
 \* ---- user ---------------------------------------------------------------
 TrUCall ==
@@ -111,7 +112,22 @@ TrCtlRecv ==
     /\ snap' = [i \in Chains |->
                   IF i \notin failed /\ (ch[i].st = "done" \/ (ch[i].st = "parked" /\ mailbox[i] = <<>>))
                   THEN rec[i] ELSE -1]
-    /\ UNCHANGED <<unconf, fullpos, pdiv, psteps, emptySeen>>
+    /\ UNCHANGED <<unconf, fullpos, pdiv, psteps, emptySeen, lastcb>>
+
+\* the progress callback, called on the controller thread at start-up, whenever `rate` has
+\* elapsed without a command, and once more when the command channel is closed: per chain the
+\* reported counters never go back, never run ahead of what the chain has done, the total is
+\* the number of draws asked for, and a chain that has finished a draw has started
+TrCallback ==
+    /\ IsEvent("cb")
+    /\ cpc.st \in {"recv", "finalize"}
+    /\ \A i \in Chains :
+          /\ R.finished[i + 1] >= lastcb[i]
+          /\ R.finished[i + 1] <= prog[i] + (IF ch[i].st = "locked" THEN 1 ELSE 0)
+          /\ R.total[i + 1] = Draws
+          /\ R.finished[i + 1] > 0 => R.started[i + 1]
+    /\ lastcb' = [i \in Chains |-> R.finished[i + 1]]
+    /\ UNCHANGED <<vars, unconf, fullpos, pdiv, psteps, emptySeen, snap>>
 
 TrCtlFwd ==
     /\ IsEvent("ctl_fwd")
@@ -119,13 +135,13 @@ TrCtlFwd ==
     /\ R.msg = (IF cpc.cmd = "pause" THEN "Pause" ELSE "Resume")
     /\ CtlForward
     /\ unconf' = [unconf EXCEPT ![R.i] = @ + 1]
-    /\ UNCHANGED <<fullpos, pdiv, psteps, emptySeen, snap>>
+    /\ UNCHANGED <<fullpos, pdiv, psteps, emptySeen, snap, lastcb>>
 
 TrCtlFwdDone ==
     /\ IsEvent("ctl_fwd_done")
     \* (the receiver may already have taken the message)
     /\ unconf' = [unconf EXCEPT ![R.i] = IF @ > 0 THEN @ - 1 ELSE 0]
-    /\ UNCHANGED <<vars, fullpos, pdiv, psteps, emptySeen, snap>>
+    /\ UNCHANGED <<vars, fullpos, pdiv, psteps, emptySeen, snap, lastcb>>
 
 \* before responses_tx.send: per-chain visits of flush / inspect / progress carry no
 \* event of their own and are folded in
@@ -185,7 +201,7 @@ TrChMsg ==
     \* a popped message can no longer be unconfirmed
     /\ unconf' = [unconf EXCEPT ![R.i] = IF @ > Len(mailbox'[R.i]) THEN Len(mailbox'[R.i]) ELSE @]
     /\ emptySeen' = [emptySeen EXCEPT ![R.i] = (Len(mailbox'[R.i]) <= unconf'[R.i])]
-    /\ UNCHANGED <<fullpos, pdiv, psteps, snap>>
+    /\ UNCHANGED <<fullpos, pdiv, psteps, snap, lastcb>>
 
 TrChCheck ==
     /\ IsEvent("ch_check")
@@ -214,7 +230,7 @@ TrChRecorded ==
     /\ pdiv' = [pdiv EXCEPT ![R.i] = IF R.diverging /\ ~R.tuning THEN @ + 1 ELSE @]
     /\ psteps' = [psteps EXCEPT ![R.i] = @ + R.num_steps]
     /\ emptySeen' = [emptySeen EXCEPT ![R.i] = (Len(mailbox'[R.i]) <= unconf[R.i])]
-    /\ UNCHANGED <<unconf, fullpos, snap>>
+    /\ UNCHANGED <<unconf, fullpos, snap, lastcb>>
 
 TrChResult ==
     /\ IsEvent("ch_result")
@@ -249,7 +265,7 @@ SilentNext ==
     /\ Silent
 
 TNext == \/ TrReset \/ TrUCall \/ TrURetCmd \/ TrURetWait \/ TrURetAbort
-         \/ TrCtlRecv \/ TrCtlFwd \/ TrCtlFwdDone \/ TrCtlResp \/ TrCtlFinalize \/ TrCtlFinalized
+         \/ TrCtlRecv \/ TrCallback \/ TrCtlFwd \/ TrCtlFwdDone \/ TrCtlResp \/ TrCtlFinalize \/ TrCtlFinalized
          \/ TrChStart \/ TrChMsg \/ TrChCheck \/ TrChDrawn \/ TrChLocked \/ TrChRecorded
          \/ TrChResult \/ TrFinal
          \/ SilentNext
